@@ -24,10 +24,10 @@ type HistCfg struct {
 	// Prices: 0 none, 1 forest over the commodities with initial prices for
 	// every edge on the first day (every commodity priced in every other from
 	// day one), 2 forest with possibly late/missing initial prices.
-	Prices    int
-	MaxDec    int  // max decimals of quantities (default 4, at most 8)
-	WideDates bool // allow 1900–2100 starts
-	Unicode   bool
+	Prices        int
+	MaxDec        int  // max decimals of quantities (default 4, at most 8)
+	WideDates     bool // allow 1900–2100 starts
+	Unicode       bool
 	MultiLineDesc bool
 }
 
